@@ -51,6 +51,63 @@ def run_mc(ctx: Ctx, rep: Report):
             raise Machinery(f"MC_OnPolicy: action {act} never taken ({sorted(res.coverage)})")
 
 
+def state_cover(ctx: Ctx, rep: Report, pid: str, only=None):
+    """spec -> code: TLC enumerates every carried state (wrapped environment state, policy state) the bounded OnPolicy model can
+    reach; the real collector is placed in each of them (eqx.tree_at on a reset state) and runs one real iteration of length 1 for
+    several keys; every resulting row + post_collect is judged by Trace_OnPolicy.  Random rollouts visit these states with very
+    different frequencies; here each one is exercised."""
+    import equinox as eqx
+    import jax
+    import jax.numpy as jnp
+    import jax.random as jr
+    from . import drive_onpolicy as dop
+    cfgs = mc_cfgs(ctx)
+    for i, c in enumerate(cfgs):
+        c["id"] = i + 1
+    f = ctx.work / "mc_onpolicy_cover_cfgs.json"
+    f.write_text(json.dumps(cfgs))
+    res = tlc.run("mc/MC_OnPolicy.tla", "mc/MC_OnPolicy_cover.cfg", workdir=ctx.work, workers=1, env={"CFG_FILE": str(f)}, timeout=2400)
+    tlc.require_ok(res, "MC_OnPolicy_cover")
+    rep.add_tlc("MC_OnPolicy_cover", res, configurations=len(cfgs))
+    reach = {}
+    for cid, s_, cnt, ps in res.printed("ST"):
+        reach.setdefault(int(cid), set()).add((int(s_), tuple(int(x) for x in cnt), int(ps)))
+    if len(reach) != len(cfgs):
+        raise Machinery(f"on-policy state cover: TLC reported states for {len(reach)} of {len(cfgs)} configurations")
+    cache = tb.EnvCache()
+    traces, cases = [], []
+    keys_per_state = ctx.pick(4, 6)
+    for c in cfgs:
+        c1 = dict(c, H=1)
+        env = cache.get(c1)
+        policy = tb.TableACPolicy(env, c1)
+        algo = dop.with_hparams(dop.make_algo("PPO", 1, 1), c1["g2"], c1["l2"])
+        logcb, backend = dop.logging_callback(c1.get("an", 2))
+        from lerax.callback import CallbackList
+        cb = CallbackList([dop.Recorder(), logcb])
+        base = dop._reset(algo, env, policy, jr.key(0), cb)
+        for (s_, cnt, ps) in sorted(reach[c["id"]]):
+            est = tb.make_state(env, c1, s_, list(cnt))
+            st0 = eqx.tree_at(lambda x: (x.step_state.env_state, x.step_state.policy_state.n), base, (est, jnp.asarray(ps, dtype=jnp.int32)))
+            for kk in range(keys_per_state):
+                seed = ctx.rng.randrange(2 ** 31)
+                trs = dop.record_from_state(c1, env, algo, st0, cb, backend, seed)
+                traces += trs
+                cases += [{"cfg": c1, "placed": [s_, list(cnt), ps], "seed": seed}] * len(trs)
+    v = tracecheck.validate(ctx, TRACE_SPEC, traces, "onp_cover", procs=ctx.pick(4, 12))
+    rep.states += v.distinct
+    rep.transitions += v.generated
+    rep.traces += len(traces)
+    rep.evaluations += len(traces)
+    rep.parts["S2C_onpolicy_state_cover"] = {"configurations": len(cfgs), "reachable_carried_states": sum(len(x) for x in reach.values()),
+                                            "real_steps": len(traces), "accepted": len(v.accepted), "rejected": len(v.rejected)}
+    for vi in violations_from(pid, v, traces, [dict(c, algo="PPO", N=1, iters=1, env=0, iter=0) for c in cases], only):
+        vi.driver = "onpolicy_cover"
+        rep.violations.append(vi)
+    if len(traces) < 3 * len(cfgs):
+        raise Machinery("on-policy state cover: too few real steps (vacuity guard)")
+
+
 def gen_templates(ctx: Ctx, n: int) -> list:
     rng = ctx.rng
     out = []
@@ -180,6 +237,25 @@ def run_c2s(ctx: Ctx, rep: Report, pid: str, n_templates: int, per_template: int
 def replay(ctx: Ctx, pid: str, case: dict, only=None) -> Report:
     from . import drive_onpolicy as dop
     rep = Report()
+    if "placed" in case:
+        import equinox as eqx
+        import jax.numpy as jnp
+        import jax.random as jr
+        from lerax.callback import CallbackList
+        c1 = case["cfg"]
+        env = tb.EnvCache().get(c1)
+        algo = dop.with_hparams(dop.make_algo("PPO", 1, 1), c1["g2"], c1["l2"])
+        logcb, backend = dop.logging_callback(c1.get("an", 2))
+        cb = CallbackList([dop.Recorder(), logcb])
+        base = dop._reset(algo, env, tb.TableACPolicy(env, c1), jr.key(0), cb)
+        s_, cnt, ps = case["placed"]
+        st0 = eqx.tree_at(lambda x: (x.step_state.env_state, x.step_state.policy_state.n), base,
+                          (tb.make_state(env, c1, s_, cnt), jnp.asarray(ps, dtype=jnp.int32)))
+        trs = dop.record_from_state(c1, env, algo, st0, cb, backend, case["seed"])
+        v = tracecheck.validate(ctx, TRACE_SPEC, trs, "replay")
+        rep.traces = len(trs)
+        rep.violations += violations_from(pid, v, trs, [case] * len(trs), only)
+        return rep
     trs = dop.record_onpolicy(tb.EnvCache(), case["cfg"], case["algo"], case["N"], case["iters"], case["seed"])
     trs = [t for t in trs if t["meta"]["env"] == case["env"] and t["meta"]["iter"] == case["iter"]]
     v = tracecheck.validate(ctx, TRACE_SPEC, trs, "replay")
